@@ -40,6 +40,10 @@ func auditScenarios(quick bool) []vexplore.Scenario {
 	add(acfg{n: 2, b: 30, d: 0}, acfg{n: 3, b: 30, d: 0}, acfg{n: 4, b: 30, d: 0}, acfg{n: 6, b: 40, d: 0}, acfg{n: 11, b: 40, d: 0}, acfg{n: 12, b: 40, d: 0}, acfg{n: 32, b: 70, d: 0},
 		acfg{n: 2, b: 27, d: 0, nohdr: true}, acfg{n: 2, b: 30, d: 0, nofilter: true}, acfg{n: 3, b: 30, d: 0, v: variant{shape: shapeUneven}}, acfg{n: 2, b: 30, d: 0, v: variant{shape: shapeNaturalEmpty}},
 		acfg{n: 2, b: 30, d: 0, v: variant{shape: shapeMixedEnc}}, acfg{n: 2, b: 30, d: 0, empty: emptyByFilter}, acfg{n: 2, b: 24, d: 1})
+	// --- a large raw block among small zlib blocks, files longer than any number of read buffers
+	// a reader could cycle through (n decoders x (channel capacity + 1) + a few)
+	add(acfg{n: 1, b: 30, d: 0, v: variant{shape: shapeBigRaw}}, acfg{n: 2, b: 30, d: 0, v: variant{shape: shapeBigRaw}}, acfg{n: 3, b: 40, d: 0, v: variant{shape: shapeBigRaw}},
+		acfg{n: 12, b: 40, d: 0, v: variant{shape: shapeBigRaw}}, acfg{n: 2, b: 30, d: 0, nohdr: true, nofilter: true, v: variant{shape: shapeBigRaw}})
 	// --- more blocks than an 8-bit block counter holds, decoder counts that do not divide 256.
 	// (More blocks than a 16-bit counter holds were tried and dropped: one execution of
 	// 65600 blocks does not finish within the explorer's 120 s watchdog on a loaded machine.)
